@@ -35,6 +35,11 @@ type RefSender struct {
 	Before   func(stage string, idx int32, unit int)
 	Requests []Request
 	Phase    int
+	// Batch: read all requests of a phase before answering any (legal: the
+	// transport is asynchronous); the receiver's generator has then finished
+	// its pass before the first file data arrives.
+	Batch   bool
+	pending []*Request
 }
 
 func (s *RefSender) before(stage string, idx int32, unit int) {
@@ -53,6 +58,12 @@ func (s *RefSender) Serve() error {
 			return fmt.Errorf("reading request index: %w", err)
 		}
 		if idx == -1 {
+			for _, req := range s.pending {
+				if err := s.answerOne(req); err != nil {
+					return err
+				}
+			}
+			s.pending = nil
 			s.before("phase", -1, s.Phase)
 			s.Phase++
 			s.Out.Int32(-1)
@@ -92,43 +103,56 @@ func (s *RefSender) Serve() error {
 			s.Out.Int32(idx)
 			continue
 		}
-		a, err := s.Answer(&req)
-		if err != nil {
-			return err
-		}
-		if a.NoReply {
+		if s.Batch {
+			r := req
+			s.pending = append(s.pending, &r)
 			continue
 		}
-		if a.Raw != nil {
-			s.before("raw", idx, 0)
-			s.Out.Bytes(a.Raw)
-		} else {
-			s.before("idx", idx, 0)
-			s.Out.Int32(a.Idx)
-			s.before("head", idx, 0)
-			s.Out.SumHead(a.Head)
-			for k, t := range a.Toks {
-				s.before("tok", idx, k)
-				if t.IsRef() {
-					s.Out.Int32(-(t.Ref + 1))
-				} else {
-					s.Out.Int32(int32(len(t.Lit)))
-					s.Out.Bytes(t.Lit)
-				}
-			}
-			s.before("end", idx, len(a.Toks))
-			s.Out.Int32(0)
-			s.before("sum", idx, 0)
-			s.Out.Bytes(a.Sum[:])
-			s.before("done", idx, 0)
-		}
-		if s.Out.Err != nil {
-			return s.Out.Err
-		}
-		if a.Stop {
-			return ErrStopped
+		if err := s.answerOne(&req); err != nil {
+			return err
 		}
 	}
+}
+
+func (s *RefSender) answerOne(req *Request) error {
+	idx := req.Idx
+	a, err := s.Answer(req)
+	if err != nil {
+		return err
+	}
+	if a.NoReply {
+		return nil
+	}
+	if a.Raw != nil {
+		s.before("raw", idx, 0)
+		s.Out.Bytes(a.Raw)
+	} else {
+		s.before("idx", idx, 0)
+		s.Out.Int32(a.Idx)
+		s.before("head", idx, 0)
+		s.Out.SumHead(a.Head)
+		for k, t := range a.Toks {
+			s.before("tok", idx, k)
+			if t.IsRef() {
+				s.Out.Int32(-(t.Ref + 1))
+			} else {
+				s.Out.Int32(int32(len(t.Lit)))
+				s.Out.Bytes(t.Lit)
+			}
+		}
+		s.before("end", idx, len(a.Toks))
+		s.Out.Int32(0)
+		s.before("sum", idx, 0)
+		s.Out.Bytes(a.Sum[:])
+		s.before("done", idx, 0)
+	}
+	if s.Out.Err != nil {
+		return s.Out.Err
+	}
+	if a.Stop {
+		return ErrStopped
+	}
+	return nil
 }
 
 // WholeFile answers a request with the complete data as literal tokens.
